@@ -17,6 +17,7 @@ package main
 
 import (
 	"bytes"
+	"context"
 	"encoding/json"
 	"fmt"
 	"os"
@@ -68,7 +69,7 @@ type Hist struct {
 }
 
 type Op struct {
-	Op    string   `json:"op"` // tick | hist | suspend | write | remove | rename | restart
+	Op    string   `json:"op"` // tick | hist | suspend | write | remove | rename | restart | boot
 	M     int64    `json:"m,omitempty"`
 	Wall  int64    `json:"wall,omitempty"`
 	F     string   `json:"f,omitempty"`
@@ -668,6 +669,7 @@ type fakeClient struct {
 	calls         [][2]string
 	live          bool
 	wall          int64
+	suspCalls     int // entryReader.Read asks once per loaded DAG: tells that a tick has read its entries
 }
 
 func (f *fakeClient) status(d *dag.DAG) (*model.Status, error) {
@@ -743,6 +745,7 @@ func (f *fakeClient) Restart(d *dag.DAG, _ client.RestartOptions) error {
 func (f *fakeClient) IsSuspended(id string) bool {
 	f.mu.Lock()
 	defer f.mu.Unlock()
+	f.suspCalls++
 	return f.susp[id]
 }
 
@@ -858,6 +861,87 @@ func jobsRunning() bool {
 
 // waitQuiet returns when the goroutines of the tick have ended: none of them is left on any stack and the number
 // of goroutines is back to what it was before the tick.
+// loadableDags: does the directory hold at least one DAG file that loads (then the first tick asks IsSuspended)?
+func loadableDags(dir string) bool {
+	es, _ := os.ReadDir(dir)
+	for _, e := range es {
+		if isDagFile(e.Name()) {
+			ok := func() (ok bool) {
+				defer func() {
+					if recover() != nil {
+						ok = false
+					}
+				}()
+				_, err := dag.LoadMetadata(filepath.Join(dir, e.Name()))
+				return err == nil
+			}()
+			if ok {
+				return true
+			}
+		}
+	}
+	return false
+}
+
+// bootOnce runs the daemon the way `blackdagger scheduler` does - scheduler.New + Scheduler.Start - with the clock
+// fixed at wall, lets it execute its immediate first tick, and stops it.  Returns the calls of that tick.
+func bootOnce(dir string, fc *fakeClient, lg logger.Logger, wall int64) (calls [][2]string, alive bool) {
+	calls = [][2]string{}
+	expectRead := loadableDags(dir)
+	fc.mu.Lock()
+	fc.wall = wall
+	fc.suspCalls = 0
+	if !fc.live {
+		fc.snap = map[string]Hist{}
+		for k, v := range fc.hist {
+			fc.snap[k] = v
+		}
+	}
+	fc.mu.Unlock()
+	scheduler.VerifSetFixedTime(time.Unix(wall, 0).UTC())
+	var sc *scheduler.Scheduler
+	func() {
+		defer func() {
+			if recover() != nil {
+				sc = nil
+			}
+		}()
+		sc = scheduler.New(&config.Config{DAGs: dir, WorkDir: dir, LogDir: dir, Executable: "/bin/false"}, lg, fc)
+	}()
+	if sc == nil {
+		fc.endTick()
+		return calls, false
+	}
+	ended := make(chan struct{})
+	go func() {
+		_ = sc.Start(context.Background())
+		close(ended)
+	}()
+	// the first tick has run when its Read has asked about the loaded DAGs (if there is any) and neither run nor
+	// one of its job goroutines is left on a stack
+	deadline := time.Now().Add(10 * time.Second)
+	t0 := time.Now()
+	for time.Now().Before(deadline) {
+		fc.mu.Lock()
+		n := fc.suspCalls
+		fc.mu.Unlock()
+		if (n > 0 || (!expectRead && time.Since(t0) > 30*time.Millisecond)) && !jobsRunning() {
+			break
+		}
+		time.Sleep(100 * time.Microsecond)
+	}
+	waitQuiet(runtime.NumGoroutine())
+	for i := 0; i < 2000; i++ { // Stop is a no-op until the loop has marked the scheduler as running
+		sc.Stop()
+		select {
+		case <-ended:
+			i = 2000
+		case <-time.After(time.Millisecond):
+		}
+	}
+	return fc.endTick(), true
+}
+
 func waitQuiet(base int) {
 	deadline := time.Now().Add(10 * time.Second)
 	for calm := 0; calm < 2 && time.Now().Before(deadline); {
@@ -983,17 +1067,30 @@ func runSeq(c *Case, rs *resume, flush func(i int, op *Op, fc *fakeClient)) {
 	}()
 	c.Crashed = -1
 	tmpn := 0
+	booted := false
 	for i := from; i < len(c.Ops); i++ {
 		op := &c.Ops[i]
 		op.Calls, op.Synced = [][2]string{}, true
 		switch op.Op {
 		case "restart":
 			stop()
+			booted = false
 			lg = &evLogger{ch: make(chan string, 256)} // the previous instance's watcher may still be winding down
 			d = newDaemon(dir, fc, lg)
 			if d != nil {
 				op.Synced = barrier(dir, lg, true)
 			}
+		case "boot":
+			// the real Scheduler.Start at wall-clock instant op.Wall: initial scan, watcher, and the immediate first tick
+			// for the minute the daemon believes it is in; the daemon is stopped right after that tick
+			stop()
+			lg = &evLogger{ch: make(chan string, 256)}
+			op.Calls, op.Alive = bootOnce(dir, fc, lg, op.Wall)
+			booted = op.Alive // stopped only to keep it from ticking on its own: "alive" in the model's sense
+			if flush != nil {
+				flush(i, op, fc)
+			}
+			continue
 		case "tick":
 			if d != nil {
 				fc.mu.Lock()
@@ -1051,7 +1148,7 @@ func runSeq(c *Case, rs *resume, flush func(i int, op *Op, fc *fakeClient)) {
 		if d != nil && (op.Op == "write" || op.Op == "remove" || op.Op == "rename") {
 			op.Synced = barrier(dir, lg, false)
 		}
-		op.Alive = d != nil
+		op.Alive = d != nil || booted
 		if flush != nil {
 			flush(i, op, fc)
 		}
@@ -1370,6 +1467,54 @@ func genSeq(r *vh.Rng, k int, thorough bool) Case {
 	return c
 }
 
+// genBoot: a short history around one or two boots of the real daemon (Scheduler.Start) inside / after a scheduled
+// minute, with the histories that make the start guard true or false.
+func genBoot(r *vh.Rng, k int) Case {
+	c := Case{Kind: "seq", K: k, Stream: "boot", Crashed: -1}
+	var m int64
+	if r.Below(3) == 0 {
+		m = seqStarts[r.Below(len(seqStarts))] + int64(r.Below(20))
+	} else {
+		m = 27000000 + int64(r.Next()%4000000)
+	}
+	names := []string{"d0.yaml", "d1.yaml", "d2.yml"}
+	nf := 1 + r.Below(3)
+	for i := 0; i < nf; i++ {
+		c.Files = append(c.Files, FileC{Name: names[i], C: genContent(r, m, 3, false)})
+	}
+	wall := m*60 + int64(r.Below(60))
+	pre := func() {
+		for i := 0; i < r.Below(3); i++ {
+			f := names[r.Below(nf)]
+			switch r.Below(6) {
+			case 0:
+				c.Ops = append(c.Ops, Op{Op: "suspend", F: f, On: true})
+			case 1:
+				h := Hist{Kind: "run", At: wall - int64(r.Below(400))}
+				c.Ops = append(c.Ops, Op{Op: "hist", F: f, H: &h})
+			case 2:
+				h := Hist{Kind: "done", At: m * 60} // started at exactly hh:mm:00 of the minute
+				c.Ops = append(c.Ops, Op{Op: "hist", F: f, H: &h})
+			default:
+				h := Hist{Kind: "done", At: wall - int64(r.Below(200))}
+				c.Ops = append(c.Ops, Op{Op: "hist", F: f, H: &h})
+			}
+		}
+	}
+	pre()
+	c.Ops = append(c.Ops, Op{Op: "boot", Wall: wall})
+	for i := 0; i < r.Below(3); i++ {
+		wall += []int64{0, 1, 20, 45, 60, 90}[r.Below(6)]
+		if r.Below(2) == 0 {
+			f := names[r.Below(nf)]
+			h := Hist{Kind: "done", At: wall - int64(r.Below(30))}
+			c.Ops = append(c.Ops, Op{Op: "hist", F: f, H: &h})
+		}
+		c.Ops = append(c.Ops, Op{Op: "boot", Wall: wall})
+	}
+	return c
+}
+
 func hasPanicContent(c *Case) bool {
 	chk := func(ct *Content) bool {
 		if ct == nil || ct.V == nil {
@@ -1452,6 +1597,22 @@ func fixedSeqs() []Case {
 		ops := []Op{{Op: "restart"}, {Op: "suspend", F: "d0.yaml", On: true}, {Op: "tick", M: m, Wall: m * 60},
 			{Op: "suspend", F: "d0.yaml", On: false}, {Op: "suspend", F: "d1.yaml", On: true}, {Op: "tick", M: m + 1, Wall: (m+1)*60 + 70}}
 		cs = append(cs, Case{Kind: "seq", Stream: "fixed-name-vs-id", Files: files, Ops: ops})
+	}
+	// the real Scheduler.Start: a daemon booted inside minute m runs its first tick for m (the minute is truncated) -
+	// at hh:mm:00, at hh:mm:30, and one minute later at (hh:mm+1):30 for a schedule that fires at hh:mm only
+	{
+		t := time.Unix(m*60, 0).UTC()
+		only := sv(fmt.Sprintf("%d %d * * *", t.Minute(), t.Hour()))
+		for _, w := range []int64{m * 60, m*60 + 30, (m+1)*60 + 30} {
+			cs = append(cs, Case{Kind: "seq", Stream: "fixed-boot", Files: []FileC{f("d0.yaml", only)}, Ops: []Op{{Op: "boot", Wall: w}}})
+		}
+		// restarted inside the minute: no run yet -> the minute is started; already started in this minute -> not again
+		h := Hist{Kind: "done", At: m*60 + 5}
+		cs = append(cs, Case{Kind: "seq", Stream: "fixed-boot", Files: []FileC{f("d0.yaml", only)},
+			Ops: []Op{{Op: "boot", Wall: m*60 + 5}, {Op: "hist", F: "d0.yaml", H: &h}, {Op: "boot", Wall: m*60 + 40}}})
+		hr := Hist{Kind: "run", At: m*60 - 300}
+		cs = append(cs, Case{Kind: "seq", Stream: "fixed-boot", Files: []FileC{f("d0.yaml", only), f("d1.yaml", sv("* * * * *"))},
+			Ops: []Op{{Op: "hist", F: "d0.yaml", H: &hr}, {Op: "suspend", F: "d1.yaml", On: true}, {Op: "boot", Wall: m*60 + 59}}})
 	}
 	// good behaviour: a bad file next to a good one, an added file, an edited file, a removed file
 	{
@@ -1655,6 +1816,17 @@ func main() {
 	for i := 0; i < nSeq; i++ {
 		r := rng.Fork(uint64(k))
 		c := genSeq(r, k, thorough)
+		runCase(self, scratch, &c)
+		out.Put(c)
+		k++
+	}
+	nBoot := 80
+	if thorough {
+		nBoot = 600
+	}
+	for i := 0; i < nBoot; i++ {
+		r := rng.Fork(uint64(k))
+		c := genBoot(r, k)
 		runCase(self, scratch, &c)
 		out.Put(c)
 		k++
